@@ -16,10 +16,10 @@ type Pk = DefiniteDescriptorKey;
 
 /// key mapping over key ids: map[k] = target id, 0 = the mapping fails on k,
 /// -1 = map to an uncompressed key (illegal in segwit / tapscript)
-struct MapT<'a> {
-    u: &'a Universe,
-    map: Vec<i64>,
-    ctx: String,
+pub struct MapT<'a> {
+    pub u: &'a Universe,
+    pub map: Vec<i64>,
+    pub ctx: String,
 }
 impl<'a> Translator<Pk> for MapT<'a> {
     type TargetPk = Pk;
